@@ -188,6 +188,8 @@ fn check_expr(e: &E, c31: bool, u: &Universe, rpaths: &[RepoPathBuf], rdirs: &[R
 fn leaves() -> Vec<E> {
     let s = |v: &[&str]| v.iter().map(|x| x.to_string()).collect::<Vec<_>>();
     vec![E::None, E::All, E::Files(s(&["a"])), E::Files(s(&["a/b"])), E::Files(s(&["b", "a/b/a"])), E::Files(s(&["a/a", "a/b"])),
+         // a listed file that is also the directory of another listed file; a second set sharing a/a in the leaf directory a
+         E::Files(s(&["a/b", "a/b/a"])), E::Files(s(&["a/a", "b"])),
          E::Prefix(s(&["a"])), E::Prefix(s(&["a/b"])), E::Prefix(s(&["b", "a/b/a"]))]
 }
 fn random_expr(rng: &mut Rng, depth: u32, comps_: &[&str], globs: bool) -> E {
@@ -277,8 +279,8 @@ pub fn run(pid: &str, _func: &str, replay: Option<Value>, seed: u64) -> Value {
         if let Some(h) = check_expr(&e, c31, &big, &big_p, &big_d) { return h; }
     }
     if c31 {
-        json!({"found": false, "note": "scope exhausted: FilesetExpression::to_matcher for every expression of depth <= 1 and a third of depth 2 over 9 leaves (none, all, file and prefix sets over a/b paths), all 3-ary and 4374 5-ary unions of leaf&all operands, plus 6000 random expressions of depth <= 4 (file/prefix paths, simple globs * ? incl. case-insensitive, n-ary/empty/nested unions) checked on all paths of depth <= 3 over components {a,b,ab,A}: matches == denotation, visit sound", "scope": "small"})
+        json!({"found": false, "note": "scope exhausted: FilesetExpression::to_matcher for every expression of depth <= 1 and a third of depth 2 over 11 leaves (none, all, file and prefix sets over a/b paths), all 3-ary and 7986 5-ary unions of leaf&all operands, plus 6000 random expressions of depth <= 4 (file/prefix paths, simple globs * ? incl. case-insensitive, n-ary/empty/nested unions) checked on all paths of depth <= 3 over components {a,b,ab,A}: matches == denotation, visit sound", "scope": "small"})
     } else {
-        json!({"found": false, "note": "scope exhausted: every Union/Intersection/Difference tree of depth <= 2 over 9 leaves (Nothing, Everything, 4 FilesMatcher, 3 PrefixMatcher), all 7 directories and 14 paths of depth <= 3 over {a,b}; 8000 random trees of depth <= 4 on paths over {a,b,ab,A}: matches == denotation, visit sound for it", "scope": "small"})
+        json!({"found": false, "note": "scope exhausted: every Union/Intersection/Difference tree of depth <= 2 over 11 leaves (Nothing, Everything, 6 FilesMatcher incl. a file that is an ancestor directory of another file and sets sharing a file in a leaf directory, 3 PrefixMatcher), all 7 directories and 14 paths of depth <= 3 over {a,b}; 8000 random trees of depth <= 4 on paths over {a,b,ab,A}: matches == denotation, visit sound for it", "scope": "small"})
     }
 }
